@@ -60,7 +60,14 @@ class ValidGen:
     def st_value(self, st, kind):
         v = self.st.get(st)
         if v is not None and v.get("enums"):
-            return {"s": v["enums"][0]}
+            e = v["enums"][0]
+            if isinstance(e, str) and kind == "str":
+                return {"s": e}
+            if kind == "int":
+                return {"i": int(float(e))}
+            if kind in ("float", "double"):
+                return {"f": repr(float(e))}
+            return {"s": str(e)}
         if kind == "int":
             return {"i": 1}
         if kind in ("float", "double"):
@@ -128,8 +135,11 @@ class ValidGen:
     def violate(self, c, kw):
         """the same keywords with one facet violated (None when the class has no facet-checked string member)"""
         byname = {e["name"]: e for e in self.members(c)}
-        cands = [i for i, (n, v) in enumerate(kw) if byname.get(n, {}).get("attr") and self.bad_value(byname[n]["st"])]
-        extra = [e for e in byname.values() if e["attr"] and self.bad_value(e["st"]) and e["name"] not in [n for n, _ in kw]]
+        # string-kind attributes only: a bad value for an int/float attribute already fails in the constructor's cast
+        cands = [i for i, (n, v) in enumerate(kw) if byname.get(n, {}).get("attr") and byname[n]["kind"] == "str"
+                 and self.bad_value(byname[n]["st"])]
+        extra = [e for e in byname.values() if e["attr"] and e["kind"] == "str" and self.bad_value(e["st"])
+                 and e["name"] not in [n for n, _ in kw]]
         if cands:
             i = self.rng.choice(cands)
             out = [list(x) for x in kw]
@@ -264,6 +274,11 @@ def evaluate(ck, sessions, results, initial):
                 if code != 0:
                     bad("C09:any-keyword-silently-swallowed", "%s: the constructor keyword anytypeobjs_ is refused by the argument check (%s)"
                         % (c, r.get("exc")), expected="accepted")
+            elif "direct" not in r:
+                # the constructor itself raises on these keywords: the factory must raise too (nothing to validate)
+                ck.tally("factory:constructor-raises")
+                if code == 0:
+                    bad("C09:factory-returns-although-constructor-raises", "the constructor raises %s on these keywords" % r.get("direct_exc"))
             else:
                 if on:
                     if code == 0 and not r.get("ret_valid"):
